@@ -125,4 +125,18 @@ CHECKS = {
              "reach": {"VerifH_SYS_C18": ["quiescent", "answer-dropped"]}},
         ],
     },
+    "C09": {
+        "groups": [
+            {"name": "c09-sys", "files": ["h_sys_c09.go"], "harnesses": ["VerifH_SYS_C09"], "concurrent": True,
+             "flags": {"quick": [P(faults=2)], "thorough": [P(faults=3)]},
+             "reach": {"VerifH_SYS_C09": ["quiescent", "redial"]}},
+        ],
+    },
+    "C17": {
+        "groups": [
+            {"name": "c17-sys", "files": ["h_sys_c17.go"], "harnesses": ["VerifH_SYS_C17"], "concurrent": True,
+             "flags": {"quick": [P(faults=1)], "thorough": [P(faults=3)]},
+             "reach": {"VerifH_SYS_C17": ["quiescent", "inbound-after-handle"]}},
+        ],
+    },
 }
